@@ -40,6 +40,11 @@ std::string& lastNote(); // value of the free-form "note" argument of the last s
 void setConcurrentMode(bool on);
 std::string& lastInitIdThisThread();
 
+// while on, init() of a scripted plugin does everything it normally does (and logs Init) but REPORTS failure (returns
+// 1): what a real plugin's init() does when e.g. /proc/meminfo cannot be read at that moment.  Meant for the window
+// in which the engine re-creates plugin objects on its own (per-cgroup instances inside a tick).
+void setInitReportsFailure(bool on);
+
 extern const char* kDetName; // "verif_det"
 extern const char* kActName; // "verif_act"
 extern const char* kHookName; // "verif_hook"
